@@ -721,9 +721,48 @@ def stopperCheck (fuel : Nat) : M Unit := do
     CHECKED / RUNNING instances only -/
 def acceptsEvents (w : W) (i : Nat) : Bool := w.instRunning.getD i false || w.instChecked.getD i false
 
+/-- `ApplicationStartJobs.on_command_added`: in a non-distributed application whose instances have been selected, the new command
+    gets one of them, chosen by the strategy of the JOB for the load of the program and the load requests of the job -/
+def onCommandAdded (w : W) (j : AppJobs) (c : Command) : Res Command :=
+  if (w.acfg.getD j.app default).distribution = .all then .ok c
+  else if j.identifiers.isEmpty then .ok c
+  else match chooseInstance w j.strategy (applicableIdentifiers w j.identifiers c.proc) (w.pcfg.getD c.proc default).load (jobLoadRequests w j) with
+    | some i => updateIdentifier w c i
+    | none => .ok c
+
+/-- one sequence group of `retargetPlanned`: `preC` are the commands of the group already walked, `preG` / `postG` the groups before
+    and after it as they are now.  A command that targets a lost instance has its identifier cleared, then `on_command_added` sees
+    the job as it is at that time (the load requests count the commands re-assigned before it, not this one). -/
+def retargetCmds (w : W) (lost : List Nat) (j0 : AppJobs) (preG postG : List (Nat × List Command)) (seq : Nat) :
+    List Command → List Command → List Command
+  | preC, [] => preC
+  | preC, c :: postC =>
+    if c.target.any (fun i => lost.contains i) then
+      let c0 := { c with target := none }
+      let view := { j0 with planned := preG ++ (seq, preC ++ c0 :: postC) :: postG }
+      let c1 := match onCommandAdded w view c0 with | .ok c' => c' | .err _ => c0
+      retargetCmds w lost j0 preG postG seq (preC ++ [c1]) postC
+    else retargetCmds w lost j0 preG postG seq (preC ++ [c]) postC
+
+/-- the groups of the plan, in the order of the plan -/
+def retargetGroups (w : W) (lost : List Nat) (j0 : AppJobs) :
+    List (Nat × List Command) → List (Nat × List Command) → List (Nat × List Command)
+  | preG, [] => preG
+  | preG, g :: postG => retargetGroups w lost j0 (preG ++ [(g.1, retargetCmds w lost j0 preG postG g.1 [] g.2)]) postG
+
+/-- `ApplicationStartJobs.on_instances_invalidation` (override): in a non-distributed application the instances were assigned to all
+    commands when the job started; a planned command that targets a lost instance is assigned again among the remaining selected
+    instances (`on_command_added`; none is left for SINGLE_INSTANCE: the start then fails with 'No resource available').  The commands
+    are walked in the order of the plan, each one seeing the load requests of those re-assigned before it. -/
+def retargetPlanned (w : W) (lost : List Nat) (j : AppJobs) : AppJobs :=
+  if (w.acfg.getD j.app default).distribution = .all then j else
+  let j0 := { j with identifiers := j.identifiers.filter (fun i => !lost.contains i) }
+  { j0 with planned := retargetGroups w lost j0 [] j0.planned }
+
 /-- `ApplicationJobs.on_instances_invalidation` of a start job: the pending requests on a lost instance are dropped, each one
     is a starting failure (`process_failure`), not a running failure; processes with a planned start are not running failures
-    either.  Returns the job and what is left of `failed_processes`. -/
+    either; then the planned commands of a non-distributed application leave the lost instances (`retargetPlanned`).  Returns
+    the job and what is left of `failed_processes`. -/
 def startJobInvalidation (w : W) (lost : List Nat) (j : AppJobs) (failed : List Nat) : AppJobs × List Nat :=
   let (j1, f1) := j.current.foldl (fun (acc : AppJobs × List Nat) c =>
       if c.target.any (fun i => lost.contains i) then
@@ -731,7 +770,7 @@ def startJobInvalidation (w : W) (lost : List Nat) (j : AppJobs) (failed : List 
          acc.2.filter (· ≠ c.proc))
       else acc) (j, failed)
   let plannedProcs := ((j1.planned.map (·.2)).flatten).map (·.proc)
-  (j1, f1.filter (fun p => !plannedProcs.contains p))
+  (retargetPlanned w lost j1, f1.filter (fun p => !plannedProcs.contains p))
 
 /-- the same for a stop job (`process_failure` does nothing) -/
 def stopJobInvalidation (lost : List Nat) (j : StopJobs) (failed : List Nat) : StopJobs × List Nat :=
@@ -878,15 +917,6 @@ def hasCommand (j : AppJobs) (p : Nat) : Bool := j.current.any (·.proc = p) || 
 /-- `planned_jobs.setdefault(seq, []).append(command)` -/
 def appendPlanned (pl : List (Nat × List Command)) (seq : Nat) (c : Command) : List (Nat × List Command) :=
   if pl.any (·.1 = seq) then pl.map (fun g => if g.1 = seq then (g.1, g.2 ++ [c]) else g) else pl ++ [(seq, [c])]
-
-/-- `ApplicationStartJobs.on_command_added`: in a non-distributed application whose instances have been selected, the new command
-    gets one of them, chosen by the strategy of the JOB for the load of the program and the load requests of the job -/
-def onCommandAdded (w : W) (j : AppJobs) (c : Command) : Res Command :=
-  if (w.acfg.getD j.app default).distribution = .all then .ok c
-  else if j.identifiers.isEmpty then .ok c
-  else match chooseInstance w j.strategy (applicableIdentifiers w j.identifiers c.proc) (w.pcfg.getD c.proc default).load (jobLoadRequests w j) with
-    | some i => updateIdentifier w c i
-    | none => .ok c
 
 /-- `ApplicationJobs.add_commands` for one command: a process already planned or in progress is not considered again -/
 def addCommand (w : W) (j : AppJobs) (seq : Nat) (c : Command) : Res AppJobs :=
